@@ -41,7 +41,9 @@ var Check = &ev.Check{
 		"distinct_nontrivial = scenarios whose exploration contained at least one execution where a thread received a recycled pool object or was preempted.",
 	Run:     run,
 	Workers: func(string) int { return 16 },
-	Budget:  func(t string) time.Duration { return map[string]time.Duration{"quick": 4 * time.Minute, "thorough": 25 * time.Minute}[t] },
+	Budget: func(t string) time.Duration {
+		return map[string]time.Duration{"quick": 4 * time.Minute, "thorough": 25 * time.Minute}[t]
+	},
 	Assumptions: []string{
 		"a cooperative scheduler cannot see data races between scheduling points or weak-memory effects; the property's 'no data race' clause is covered only to the extent races manifest as wrong results at the explored granularity (a free-running -race pass is auxiliary and not part of this verdict)",
 		"scheduling points are the hooked operations (sync, atomic, pool, harness I/O); code between two points runs atomically",
@@ -64,7 +66,7 @@ func errs(err error) string {
 	return " err=" + err.Error()
 }
 
-func st(fs ...tbin.Field) tbin.Value        { return tbin.Value{T: tbin.Struct, Fields: fs} }
+func st(fs ...tbin.Field) tbin.Value       { return tbin.Value{T: tbin.Struct, Fields: fs} }
 func fd(id int16, v tbin.Value) tbin.Field { return tbin.Field{ID: id, V: v} }
 func bin(s string) tbin.Value              { return tbin.Value{T: tbin.Binary, B: []byte(s)} }
 func i32(x int64) tbin.Value               { return tbin.Value{T: tbin.I32, I: x} }
@@ -514,8 +516,8 @@ func (g fakeGen) Generate(*api.GenerateServiceRequest) (*api.GenerateServiceResp
 
 type fakeHandle struct{ name string }
 
-func (h fakeHandle) Name() string                                 { return h.name }
-func (h fakeHandle) Close() error                                 { return nil }
+func (h fakeHandle) Name() string                                       { return h.name }
+func (h fakeHandle) Close() error                                       { return nil }
 func (h fakeHandle) ServiceGenerator() verifhook.PluginServiceGenerator { return nil }
 
 type fakeSG struct{ fakeGen }
